@@ -4,17 +4,27 @@
 #define TYPE_DEF asn_DEF_T_Cho
 #define TV_MAXENC 8
 struct tval { uint8_t alt; int64_t i; uint8_t b; };
-struct tv_store { int unused; };
+struct tv_store { long i; BOOLEAN_t b; };
 static int tv_valid(const struct tval *v) { return v->alt <= 1 && (v->alt == 0 ? (v->i >= 0 && v->i <= 255) : v->b <= 1); }
 static void tv_build(const struct tval *v, TYPE_T *o, struct tv_store *s) {
     (void)s; memset(o, 0, sizeof(*o));
+#ifdef INDIRECT_CHOICE   /* module compiled with -findirect-choice: alternatives are pointers (C13) */
+    if(v->alt == 0) { o->present = T_Cho_PR_i; s->i = (long)v->i; o->choice.i = &s->i; }
+    else if(v->alt == 1) { o->present = T_Cho_PR_b; s->b = v->b ? 0xff : 0; o->choice.b = &s->b; }
+#else
     if(v->alt == 0) { o->present = T_Cho_PR_i; o->choice.i = (long)v->i; }
     else if(v->alt == 1) { o->present = T_Cho_PR_b; o->choice.b = v->b ? 0xff : 0; }
+#endif
     else o->present = (T_Cho_PR)(v->alt == 2 ? 0 : v->alt);      /* ill-formed: nothing selected / out of range */
 }
 static int tv_match(const struct tval *v, const TYPE_T *o) {
+#ifdef INDIRECT_CHOICE
+    if(v->alt == 0) return o->present == T_Cho_PR_i && o->choice.i && *o->choice.i == v->i;
+    return o->present == T_Cho_PR_b && o->choice.b && !*o->choice.b == !v->b;
+#else
     if(v->alt == 0) return o->present == T_Cho_PR_i && o->choice.i == v->i;
     return o->present == T_Cho_PR_b && !o->choice.b == !v->b;
+#endif
 }
 static size_t ref_der(const struct tval *v, uint8_t *out, size_t cap) {
     struct rbuf o = { out, 0, cap };
